@@ -832,6 +832,18 @@ func gen(seed uint64, tier string) {
 		`{"type":"Point","coordinates":[9223372036854775808,-9223372036854775809]}`, `{"type":"Point","coordinates":[18446744073709551616,4294967296]}`,
 		`{"type":"Point","coordinates":[1,2],"bbox":[1e400,-1e999]}`, `{"coordinates":[1e400,1],"type":"Point","coordinates":[1,2]}`,
 		`{"type":"Point","coordinates":[1,2],"properties":{"coordinates":[1e400]}}`, `{"type":"Point","Coordinates":[[1e309]],"coordinates":[1,2]}`,
+		// literal-level Unmarshal (Unmarshal.lean): out-of-range literals in stored values of any shape, in replaced duplicates, in
+		// the type member, at top level; in skipped members they are only scanned
+		`{"type":"Point","coordinates":{"a":[1e400]}}`, `{"type":"Point","coordinates":{"a":{"b":-1e999}},"coordinates":[1,2]}`,
+		`{"type":[1e400],"coordinates":[1,2]}`, `{"type":1e400,"coordinates":[1,2]}`, `{"type":{"a":1e400},"coordinates":[1,2]}`,
+		`{"coordinates":[1e400,2],"coordinates":[1,2],"type":"Point"}`, `{"type":"Point","COORDINATES":[-1e999],"coordinates":[1,2]}`,
+		`{"type":"Point","coordinate\u017f":[[[1e309]]],"coordinates":[1,2]}`, `{"type":null,"coordinates":[1e400]}`,
+		`{"type":"Point","coordinates":1e400}`, `{"type":"Point","coordinates":1e400,"coordinates":null}`, `1e400`, `[1e400]`, `-1e400`,
+		`{"type":"Point","coordinates":[1,2],"x":1e400,"y":{"coordinates":[1e400]},"z":[{"type":1e999}]}`,
+		`{"x":{"coordinates":[1e400]},"type":"Point","coordinates":[1,2],"bbox":[-1e400,1e400]}`,
+		`{"type":"Point","coordinates":[1,2],"coordinates":null}`, `{"type":"Point","coordinates":null,"coordinates":[1,2]}`,
+		`{"type":"Point","coordinates":[1.7976931348623157e308,-1.7976931348623157e308]}`, `{"type":"Point","coordinates":[1.797693134862315808e308,2]}`,
+		`{"type":"Point","coordinates":[179769313486231580793728971405303415079934132710037826936173778980444968292764750946649017977587207096330286416692887910946555547851940402630657488671505820681908902000708383676273854845817711531764475730270069855571366959622842914819860834936475292719074168444365510704342711559699508093042880177904174497791.9999,2]}`,
 		`{"type":"Point","coordinates":[0.1e1,100e-2]}`, `{"type":"Point","coordinates":[-0,0e0]}`, `{"type":"Point","coordinates":[2.5E+0,2.5e-0]}`,
 	} {
 		fmt.Fprintf(out, "dec x%s\n", hex.EncodeToString([]byte(s)))
@@ -1295,6 +1307,15 @@ func impl() {
 				res = b.String()
 			case "hist":
 				res = implHist(p)
+			case "emsg":
+				g := p.Geom()
+				_, err := geojson.Encode(g)
+				res = errText(err)
+			case "dmsg":
+				ty := unhex(p.Next())
+				t := parseTree(p)
+				_, err := geojson.FromGeoJSON(&geojson.Geometry{Type: ty, Coordinates: t})
+				res = errText(err)
 			case "cc":
 				op := p.Next()
 				rounds := p.Int()
